@@ -470,8 +470,8 @@ func (vc *VC) loadContractGlobals(con *Contract) {
 			q := g[:i]
 			name = g[i+1:]
 			found := false
-			for _, p := range vc.eng.ByName[q] {
-				pkgPath = p.PkgPath
+			if pp := vc.eng.nearestPkg(con.PkgPath, q); pp != "" {
+				pkgPath = pp
 				found = true
 			}
 			if !found {
